@@ -156,6 +156,25 @@ def _one_map(ctx, lat):
                 calls = list(cb.calls())
                 okc = len(calls) == 1 and call_matches(calls[0][1], 'Cell2::to_cartesian_point') and calls[0][1]['dest']['l'] == 0 \
                     and tc.origin(calls[0][1]['args'][1]).get('l') == 2
+        if not okc:
+            # value-based: the returned sequence is [to_cartesian(-1/2,-1/2), (-1/2,1/2), (1/2,1/2), (1/2,-1/2)] (a constant table,
+            # an array or a chain evaluated by their definitions)
+            sxc = SymEx(f)
+            oc = sxc.run(gc, [SYM('self')])
+            if len(oc) == 1 and not sxc.aborted:
+                rv = sxc.deep(oc[0].st, oc[0].ret)
+                seq = sxc.as_seq(oc[0].st, rv)
+                if seq is not None and len(seq) == 4:
+                    try:
+                        hh = n.const(1) / n.const(2)
+                        want = [(-hh, -hh), (-hh, hh), (hh, hh), (hh, -hh)]
+                        okc = True
+                        for pt, (wx, wy) in zip(seq, want):
+                            pt = sxc.deep(oc[0].st, pt)
+                            ex, ey = _tc(lat, n, wx, wy)
+                            okc = okc and n.rf(sfield(pt, 'x')).equals(ex) and n.rf(sfield(pt, 'y')).equals(ey)
+                    except (NotNumeric, TypeError, AttributeError):
+                        okc = False
         rep.check(okc, 'R2', 'corners-through-to_cartesian_point', where(gc), 'corners = fractional corners mapped by to_cartesian_point',
                   'get_corners does not map its fractional corner list through to_cartesian_point')
     # isometry & translate
